@@ -402,6 +402,36 @@ func (e *Enc) intrinsic(fr *Frame, fn *ssa.Function, args []Val, guard T, st *St
 			}
 		}
 		return one(e.define(r, "bits"), types.Typ[types.Int])
+	case "(time.Time).IsZero", "(time.Time).Sub", "(time.Time).Before", "(time.Time).After", "(time.Time).Equal", "(time.Time).Add", "(time.Time).UnixNano":
+		// trusted model: a time.Time denotes an instant tnano(wall, ext) in int64 nanoseconds; the
+		// zero Time is tnano(0,0); Sub is the (wrapping, not saturating) difference; Add yields
+		// some Time at instant+d.
+		if args[0].L[0].S.K != SBV {
+			panic(unsupported("time.Time intrinsics need mode bv/mix"))
+		}
+		e.declUF("tnano", "((_ BitVec 64) (_ BitVec 64)) (_ BitVec 64)")
+		e.trusted["time.Time as int64 nanoseconds (IsZero/Sub/Add/Before/After/Equal)"] = true
+		inst := func(v Val) T { return T{BV(64), app("tnano", v.L[0].E, v.L[1].E)} }
+		zero := T{BV(64), app("tnano", "(_ bv0 64)", "(_ bv0 64)")}
+		t0 := inst(args[0])
+		switch name {
+		case "(time.Time).IsZero":
+			return one(Eq(t0, zero), types.Typ[types.Bool])
+		case "(time.Time).UnixNano":
+			return one(T{BV(64), app("bvsub", t0.E, zero.E)}, types.Typ[types.Int64])
+		case "(time.Time).Sub":
+			return one(T{BV(64), app("bvsub", t0.E, inst(args[1]).E)}, fn.Signature.Results().At(0).Type())
+		case "(time.Time).Before":
+			return one(T{BoolS, app("bvslt", t0.E, inst(args[1]).E)}, types.Typ[types.Bool])
+		case "(time.Time).After":
+			return one(T{BoolS, app("bvsgt", t0.E, inst(args[1]).E)}, types.Typ[types.Bool])
+		case "(time.Time).Equal":
+			return one(Eq(t0, inst(args[1])), types.Typ[types.Bool])
+		case "(time.Time).Add":
+			r := e.freshVal(fn.Signature.Results().At(0).Type(), "tadd")
+			e.assert(Implies(guard, Eq(inst(r), T{BV(64), app("bvadd", t0.E, args[1].L[0].E)})))
+			return r, true
+		}
 	case "sort.Search":
 		return e.sortSearch(fr, args, guard, st, pos), true
 	case "errors.Is":
